@@ -40,9 +40,15 @@ class AbstractReader(object):
                     [x[:-4] for x in filenames]
                 )
             else:
-                suffixed = mibname + '-mib'
-                filenames.append(suffixed.upper())
-                filenames.append(suffixed.lower())
+                # the same case forms as above, with the suffix added
+                if self.originalMatching:
+                    filenames.append(mibname + '-MIB')
+
+                if self.uppercaseMatching:
+                    filenames.append(mibname.upper() + '-MIB')
+
+                if self.lowcaseMatching:
+                    filenames.append(mibname.lower() + '-mib')
 
         return ((x, x + y) for x in filenames
                 for y in options.get('exts', self.exts))
